@@ -24,7 +24,7 @@ func init() {
 			"gen.Writer":               "stub: recording writer (sequence of (filename, sha256(content)))",
 			"Go map iteration order":   "simulated: per site and per generation a tape-drawn policy (ascending, descending, rotation, seeded shuffle varying per execution); every produced order is one the Go spec permits",
 			"wall clock":               "simulated: tape-chosen epoch (1970..2262) and jump per reading (0ns..40 years), never backwards",
-			"process / earlier history": "a run is a sequence of 1..5 generations in one worker process, compared with references produced by fresh processes; workers run at GOMAXPROCS 1, 4 and 16",
+			"process / earlier history": "a run is a sequence of 1..5 generations in one fresh child process (so the history is exactly what the tape says), compared with references produced by other fresh processes; GOMAXPROCS 1, 4 or 16 per worker",
 			"goroutine scheduling":     "none exists on this path (the rewriter fails closed, exit 2, if a go statement, select, math/rand or os.Getenv appears there)",
 		},
 		rule: "One run = a history of 1..5 generations (shipped grammars incl. rarely js, testing/{cpp,ts} grammars, compiler/testdata grammars with a target, synthetic grammars aimed at the instrumented sites), each under tape-drawn map-order policies for all rewritten range sites and a tape-drawn clock; oracle: the recorded (filename, sha256) sequence equals the fresh-process all-ascending reference, and for shipped grammars the content equals the committed files. " +
@@ -246,5 +246,6 @@ func prepareDet(cfg *config) ([]string, []string, map[string]any, error) {
 		info["cannot_vouch"] = rw.unowned
 	}
 	engines["detsim"].probes = append(wantProbes, "generation-with-history", "committed-files-compared", "map-order-permuted", "clock-jump")
-	return []string{bin}, []string{"ZZ_DETSIM_SETUP=" + setupPath}, info, nil
+	// every run in a fresh child process: the only history a run sees is the one its tape describes
+	return []string{bin, "-isolate"}, []string{"ZZ_DETSIM_SETUP=" + setupPath}, info, nil
 }
